@@ -342,19 +342,30 @@ func c12ChunkedParts(kind string, rng *Rng) {
 	}
 	id := s.Initiate(b, "mpc", nil)
 	p1, p2 := rng.Bytes(7000), rng.Bytes(333)
+	digest := "" // Content-MD5 of the next part, when set: the digest of the payload, not of its framing
 	sendPart := func(pn int, payload []byte, sizes []int, sched []int, declared int) Resp {
 		stream := encodeChunks(splitChunks(payload, sizes))
 		fr := &fragReader{data: append([]byte{}, stream...), sched: append([]int{}, sched...), eofWith: pn%2 == 0}
-		return do(s.h, Req{Method: "PUT", Path: "/" + b + "/mpc?uploadId=" + queryEscape(id) + "&partNumber=" + strconv.Itoa(pn), Reader: fr, Header: [][2]string{
+		hdr := [][2]string{
 			{"Content-Length", strconv.Itoa(len(stream))},
 			{"X-Amz-Content-Sha256", "STREAMING-AWS4-HMAC-SHA256-PAYLOAD"},
-			{"X-Amz-Decoded-Content-Length", strconv.Itoa(declared)}}})
+			{"X-Amz-Decoded-Content-Length", strconv.Itoa(declared)}}
+		if digest != "" {
+			hdr = append(hdr, [2]string{"Content-MD5", digest})
+		}
+		return do(s.h, Req{Method: "PUT", Path: "/" + b + "/mpc?uploadId=" + queryEscape(id) + "&partNumber=" + strconv.Itoa(pn), Reader: fr, Header: hdr})
 	}
 	r1 := sendPart(1, p1, []int{1024}, []int{1}, len(p1))
+	digest = b64md5(p2)
 	r2 := sendPart(2, p2, []int{100, 1, 7}, nil, len(p2))
+	digest = ""
 	r3 := sendPart(3, p2, []int{64}, nil, len(p2)+1) // wrong declared decoded length
-	verdict(r1.Status == 200 && r2.Status == 200, fmt.Sprintf("%s: chunked part uploads are accepted (%d, %d)", kind, r1.Status, r2.Status))
+	digest = b64md5(p1)
+	r4 := sendPart(4, p2, []int{64}, nil, len(p2)) // the digest of other bytes
+	digest = ""
+	verdict(r1.Status == 200 && r2.Status == 200, fmt.Sprintf("%s: chunked part uploads, without and with the Content-MD5 of their payload, are accepted (%d, %d)", kind, r1.Status, r2.Status))
 	verdict(r3.Status >= 400, fmt.Sprintf("%s: a chunked part whose decoded length differs from the declared one is refused (%d)", kind, r3.Status))
+	verdict(r4.Status >= 400, fmt.Sprintf("%s: a chunked part sent with the Content-MD5 of other bytes is refused (%d)", kind, r4.Status))
 	lp := s.ListParts(b, "mpc", id, -1, -1)
 	verdict(fmt.Sprint(lp.Nums) == "[1 2]", fmt.Sprintf("%s: the upload holds exactly the two accepted parts: %v", kind, lp.Nums))
 	if r1.Status == 200 && r2.Status == 200 {
@@ -362,6 +373,18 @@ func c12ChunkedParts(kind string, rng *Rng) {
 		g := do(s.h, Req{Method: "GET", Path: "/" + b + "/mpc"})
 		want := append(append([]byte{}, p1...), p2...)
 		verdict(rc.Status == 200 && g.Status == 200 && bytes.Equal(g.Body, want), fmt.Sprintf("%s: the completed object is the concatenation of the part payloads (%d bytes; got %d, complete answered %d)", kind, len(want), len(g.Body), rc.Status))
+	}
+	// the same for a whole object: Content-MD5 is the digest of the payload, with or without chunk framing
+	for i, dg := range []string{b64md5(p2), b64md5(p1)} {
+		stream := encodeChunks(splitChunks(p2, []int{50, 3}))
+		r := do(s.h, Req{Method: "PUT", Path: "/" + b + "/chunked-with-digest", Body: stream, Header: [][2]string{
+			{"X-Amz-Content-Sha256", "STREAMING-AWS4-HMAC-SHA256-PAYLOAD"}, {"X-Amz-Decoded-Content-Length", strconv.Itoa(len(p2))}, {"Content-MD5", dg}}})
+		g := do(s.h, Req{Method: "GET", Path: "/" + b + "/chunked-with-digest"})
+		if i == 0 {
+			verdict(r.Status == 200 && g.Status == 200 && bytes.Equal(g.Body, p2), fmt.Sprintf("%s: an aws-chunked PUT with the Content-MD5 of its payload is accepted and stores the payload (PUT %d, GET %d, %d bytes)", kind, r.Status, g.Status, len(g.Body)))
+		} else {
+			verdict(r.Status >= 400 && g.Status == 200 && bytes.Equal(g.Body, p2), fmt.Sprintf("%s: an aws-chunked PUT with the Content-MD5 of other bytes is refused and the object stays (PUT %d, GET %d)", kind, r.Status, g.Status))
+		}
 	}
 	nontrivial(kind + "|chunked-parts")
 	s.end()
